@@ -137,7 +137,7 @@ pub fn spec_for(property: &str) -> Option<CheckSpec> {
         "C12" => CheckSpec {
             property: "C12".into(),
             level: "exploration",
-            profiles: vec![p("seq", 4), p("seq-maint", 4), p("seq-filter", 1), p("conc", 3), p("crash-kill", 1), p("crash-double", 1)],
+            profiles: vec![p("seq", 4), p("seq-maint", 4), p("seq-filter", 1), p("conc", 3), p("conc+fsync", 2), p("crash-kill", 1), p("crash-double", 1)],
             thorough_extra: vec![],
             quick_runs: 8_000,
             thorough_runs: 400_000,
